@@ -70,16 +70,18 @@ class TracingRSync(RSync):
         t = self._tix.get(channel, 0)
         if req is None:
             self.events.append(ev("get", t, "eof"))
-        elif req[0] == "send":
-            self.events.append(ev("get", t, "send", self._p("/".join(req[1][0]))))
+        elif req[0] == "send":  # n = 1: the target sent a checksum along (same size, other mtime), 0: it has nothing usable
+            self.events.append(ev("get", t, "send", self._p("/".join(req[1][0])), 1 if req[1][1] is not None else 0))
         elif req[0] == "ack":
             self.events.append(ev("get", t, "ack", self._p(req[1])))
         else:
             self.events.append(ev("get", t, str(req[0])))
 
     def _send_item(self, channel, modified_rel_path_components, checksum):
+        n0 = len(self.reported)
         super()._send_item(channel, modified_rel_path_components, checksum)
-        self.events.append(ev("item", self._tix.get(channel, 0), "", self._p("/".join(modified_rel_path_components))))
+        # n = 1: the file's data went out (_report_send_file was called), 0: None went out ("not really modified")
+        self.events.append(ev("item", self._tix.get(channel, 0), "", self._p("/".join(modified_rel_path_components)), 1 if len(self.reported) > n0 else 0))
 
     def _process_link(self, channel):
         n = len(self._links)
@@ -172,5 +174,30 @@ def run_one(gw, base, rng):
         dests.append(d)
         r.add_traced_target(gw, d, delete=rng.random() < 0.5)
     err = r.traced_send()
+    covered = True
+    if not err:
+        want = _tree(src)
+        for t, d in enumerate(dests, 1):
+            if t not in failing:
+                got = _tree(d)
+                if any(got.get(k) != v for k, v in want.items()):
+                    covered = False
     shutil.rmtree(base, ignore_errors=True)
-    return {"nt": nt, "mayfail": sorted(failing), "trace": r.events, "err": err}
+    return {"nt": nt, "mayfail": sorted(failing), "trace": r.events, "err": err, "covered": covered}
+
+
+def _tree(root):
+    out = {}
+    for dp, dn, fn in os.walk(root):
+        for nme in dn + fn:
+            p = os.path.join(dp, nme)
+            st = os.lstat(p)
+            rel = os.path.relpath(p, root)
+            if stat.S_ISLNK(st.st_mode):
+                out[rel] = ("link", os.readlink(p).replace(root, "<ROOT>"))
+            elif stat.S_ISDIR(st.st_mode):
+                out[rel] = ("dir",)
+            else:
+                with open(p, "rb") as f:
+                    out[rel] = ("file", f.read(), stat.S_IMODE(st.st_mode), int(st.st_mtime))
+    return out
